@@ -29,6 +29,14 @@ WIDTHS = {
     'int(arch.O)': ('int(arch.O)', 'O'), 'int(arch.L)': ('int(arch.L)', 'L'),
 }
 
+SOKINDS = {}
+for _f in glob.glob(PKG + '/shr_*.go'):
+    _src = open(_f).read()
+    _t = re.search(r'func \(\w+ (\w+)\) Shr_get_name\(\) string \{\s*return "([^"]+)"', _src)
+    _s = re.search(r'func \(\w+ (\w+)\) Shortname\(\) string \{\s*return "([^"]+)"', _src)
+    if _t and _s and _t.group(1) == _s.group(1):
+        SOKINDS[_t.group(1)] = (_t.group(2), _s.group(2))
+
 def loc_formula(body):
     """spec expression for locationBits as computed by this function body, or None"""
     m = re.search(r'locationBits := arch\.(O|L)\n', body)
@@ -71,13 +79,26 @@ def fields_of(body):
         r'(?P<reg>words\[(?P<rk>\d+)\] == strings\.ToLower\(Get_register_name\(i\)\))'
         r'|(?P<num>Process_number\(words\[(?P<nk>\d+)\]\))'
         r'|(?P<inp>Process_input\(words\[(?P<ik>\d+)\], int\(arch\.N\)\))'
-        r'|(?P<outp>Process_output\(words\[(?P<ok>\d+)\], int\(arch\.M\)\))')
+        r'|(?P<outp>Process_output\(words\[(?P<ok>\d+)\], int\(arch\.M\)\))'
+        r'|(?P<so>Process_shared\((?P<sshort>\w+), words\[(?P<sk>\d+)\], (?P<snum>\w+)\))')
     for m in pat.finditer(body):
         rest = body[m.end():]
         z = re.search(r'(\w+) \+= zeros_prefix\(([^,]+), (get_binary\(i\)|partial)\)', rest)
         if not z:
             return None
         target, w = z.group(1), z.group(2).strip()
+        if m.group('so'):
+            # the shared object kind: <v> := <Type>{} ; widths and counts through arch.Shared_bits/Shared_num(<v>.Shr_get_name())
+            sv = re.search(r'\b%s := (\w+)\.Shortname\(\)' % re.escape(m.group('sshort')), body)
+            if not sv:
+                return None
+            st = re.search(r'\b%s := (\w+)\{\}' % re.escape(sv.group(1)), body)
+            wb = re.search(r'\b%s := arch\.Shared_bits\(%s\.Shr_get_name\(\)\)' % (re.escape(w), re.escape(sv.group(1))), body)
+            nb = re.search(r'\b%s := arch\.Shared_num\(%s\.Shr_get_name\(\)\)' % (re.escape(m.group('snum')), re.escape(sv.group(1))), body)
+            if not (st and wb and nb) or st.group(1) not in SOKINDS:
+                return None
+            fields.append(('so:' + st.group(1), int(m.group('sk')), 'arch.Shared_bits("%s")' % SOKINDS[st.group(1)][0]))
+            continue
         if w not in WIDTHS and not w.isdigit():
             # a local alias: name := int(arch.X)
             al = re.search(r'\b%s := (int\(arch\.(?:O|L|R|Rsize)\))\n' % re.escape(w), body)
@@ -101,7 +122,7 @@ def fields_of(body):
     if any('loc' == WIDTHS.get(w, ('', ''))[1] for w in []):
         pass
     # anything that smells like another operand source we do not understand
-    if re.search(r'Process_shared|soLists|Shared_|strconv\.Atoi|op\.\w+', body):
+    if re.search(r'soLists|Shared_constraints|strconv\.Atoi|op\.\w+', body):
         return None
     if len(fields) != nwords:
         return None
@@ -116,6 +137,8 @@ def piece(kind, v):
         return 'lower(cat("i", itoa(%s)))' % v
     if kind == 'out':
         return 'lower(cat("o", itoa(%s)))' % v
+    if kind.startswith('so:'):
+        return 'cat("%s", itoa(%s))' % (SOKINDS[kind[3:]][1], v)
 
 contracts = []
 harness = []
@@ -166,11 +189,17 @@ for f in sorted(glob.glob(PKG + '/op_*.go')):
             dec = '%s == numval(words[%d])' % (v, k)
         elif kind == 'in':
             dec = '0 <= %s && %s < int(arch.N) && words[%d] == cat("i", itoa(%s))' % (v, v, k, v)
+        elif kind.startswith('so:'):
+            nm, sh = SOKINDS[kind[3:]]
+            dec = '0 <= %s && %s < arch.Shared_num("%s") && words[%d] == cat("%s", itoa(%s))' % (v, v, nm, k, sh, v)
         else:
             dec = '0 <= %s && %s < int(arch.M) && words[%d] == cat("o", itoa(%s))' % (v, v, k, v)
         c.append('//@   ensures f%d: result1 == nil && %s ==> len(result) >= %s && %s' % (idx, exact, hi, dec))
     # the padding is computed from the same nominal widths: total width is max(Max_word, opcode bits + nominal operand bits)
-    fits = ' && '.join('%s >= 1 && numval(words[%d]) < pow2big(%s)' % (w, k, w) for (kind, k, w) in fields if kind == 'imm')
+    fitl = ['%s >= 1 && numval(words[%d]) < pow2big(%s)' % (w, k, w) for (kind, k, w) in fields if kind == 'imm']
+    # an index of a shared object fits its field when the field is wide enough for the number of such objects
+    fitl += ['%s >= 1 && arch.Shared_num("%s") <= pow2big(%s)' % (w, SOKINDS[kind[3:]][0], w) for (kind, k, w) in fields if kind.startswith('so:')]
+    fits = ' && '.join(fitl)
     nominal = 'arch.Opcodes_bits()' + (' + ' + total if total != '0' else '')
     cond = 'result1 == nil' + (' && ' + fits if fits else '')
     c.append('//@   ensures width: %s ==> arch.Opcodes_bits() + len(result) == (arch.Max_word() > %s ? arch.Max_word() : %s)' % (cond, nominal, nominal))
@@ -179,7 +208,7 @@ for f in sorted(glob.glob(PKG + '/op_*.go')):
         c.append('//@   loop 1: invariant zeros: isbin(result) && val(result) == 0')
     c.append('')
     # Disassembler
-    widths_le = ' && '.join('%s <= 62' % w for (kind, k, w) in fields if kind == 'imm')
+    widths_le = ' && '.join('%s <= 62' % w for (kind, k, w) in fields if kind == 'imm' or kind.startswith('so:'))
     req = 'wfArch(arch) && len(instr) >= %s' % (total if total != '0' else '0')
     if widths_le:
         req += ' && ' + widths_le
@@ -269,7 +298,13 @@ package procbuilder
 //@ props C03
 
 '''
-out = hdr + '\n'.join(contracts)
+sohdr = '// names of the shared-object kinds that opcodes refer to (proved against the one-line bodies)\n'
+for T in sorted(SOKINDS):
+    nm, sh = SOKINDS[T]
+    rv = re.search(r'func \((\w+) %s\) Shr_get_name' % T, open(PKG + '/shr_%s.go' % T.lower()).read()) if os.path.exists(PKG + '/shr_%s.go' % T.lower()) else None
+    sohdr += '//@ func (op %s) Shr_get_name() string\n//@   ensures result == "%s"\n//@   pure\n\n' % (T, nm)
+    sohdr += '//@ func (op %s) Shortname() string\n//@   ensures result == "%s"\n//@   pure\n\n' % (T, sh)
+out = hdr + sohdr + '\n'.join(contracts)
 out += '\n// Opcodes without a functional contract here (the interface-level contracts still apply):\n'
 for T, why in notdone:
     out += '//   %s: %s\n' % (T, why)
